@@ -96,14 +96,18 @@ def run(R, P="C09"):
     ad = repo.cls("decorators.AsyncDecorator")
     pad = repo.cls("decorators.PureAsyncDecorator")
     aw = repo.cls("decorators.AsyncWrapper")
-    for cls, common_call in ((ad, "self._call_pure(args, kwargs)"), (aw, "self._call_async(args, kwargs)")):
+    for cls in (ad, aw):
         asy, syn = cls.methods.get("asynq"), cls.methods.get("__call__")
         R.need(asy is not None and syn is not None, "anchor vanished: %s.asynq/__call__" % cls.qualname)
-        R.check(ret_srcs(asy) == [common_call], P + ".ROUTE", asy.qualname, R.site(asy),
-                ".asynq(...) returns %s" % common_call, ".asynq(...) no longer returns %s" % common_call)
+        ra = ret_srcs(asy)
+        R.check(len(ra) == 1 and ("args" in ra[0] and "kwargs" in ra[0]), P + ".ROUTE", asy.qualname, R.site(asy),
+                ".asynq(...) returns %s" % (ra[0] if ra else None), ".asynq(...) does not return one call built from (args, kwargs): %s" % ra)
         rs = ret_srcs(syn)
-        R.check(rs == [common_call + ".value()"], P + ".ROUTE", syn.qualname, R.site(syn),
-                "the synchronous call is .value() of the same call .asynq makes", "the synchronous call is not %s.value() (returns %s)" % (common_call, rs))
+        R.check(len(ra) == 1 and rs == [ra[0] + ".value()"], P + ".ROUTE", syn.qualname, R.site(syn),
+                "the synchronous call is .value() of the very expression .asynq returns", "the synchronous call returns %s, not (%s).value()" % (rs, ra[0] if ra else None))
+    cpa = ret_srcs(ad.methods["asynq"])
+    R.check(cpa == ["self._call_pure(args, kwargs)"], P + ".ROUTE", ad.qualname + ":call_pure", R.site(ad.methods["asynq"]),
+            "AsyncDecorator.asynq goes through _call_pure(args, kwargs)", "AsyncDecorator.asynq returns %s" % cpa)
     pc = pad.methods.get("__call__")
     R.check(ret_srcs(pc) == ["self._call_pure(args, kwargs)"], P + ".ROUTE", pc.qualname, R.site(pc),
             "calling a pure async function returns the task of _call_pure(args, kwargs)", "pure __call__ no longer returns _call_pure(args, kwargs)")
@@ -223,19 +227,23 @@ def run(R, P="C09"):
 
     # ---- ASYNC-CALL
     ac = repo.fn("decorators.async_call")
-    rets = [n.value for n in ast.walk(ac.node) if isinstance(n, ast.Return)]
-    want = ["fn(*args, **kwargs)", "fn.asynq(*args, **kwargs)", "getattr(fn, 'async')(*args, **kwargs)", "futures.ConstFuture(fn(*args, **kwargs))"]
-    R.check([q.src(r) for r in rets] == want, P + ".ASYNC-CALL", ac.qualname, R.site(ac),
-            "async_call dispatches pure / .asynq / .async / plain with the same (*args, **kwargs)", "async_call's arms are %s" % [q.src(r) for r in rets])
-    tests = []
-    cur = [s for s in ac.node.body if isinstance(s, ast.If)]
-    node = cur[0] if cur else None
-    while node is not None:
-        tests.append(q.src(node.test))
-        node = node.orelse[0] if len(node.orelse) == 1 and isinstance(node.orelse[0], ast.If) else None
-    R.check(tests == ["is_pure_async_fn(fn)", "hasattr(fn, 'asynq')", "hasattr(fn, 'async')"], P + ".ASYNC-CALL", ac.qualname + ":tests", R.site(ac),
-            "async_call tests pure, .asynq, .async in this order", "async_call tests %s" % tests)
+    arms_ = []          # [(test source or None for the default, [return sources])]
+    stmts = [s_ for s_ in ac.node.body if not (isinstance(s_, ast.Expr) and isinstance(s_.value, ast.Constant))]
 
+    def walk(stmts):
+        for s_ in stmts:
+            if isinstance(s_, ast.If):
+                arms_.append((q.src(s_.test), [q.src(n.value) for st in s_.body for n in ast.walk(st) if isinstance(n, ast.Return)]))
+                if s_.orelse:
+                    walk(s_.orelse)
+            elif isinstance(s_, ast.Return):
+                arms_.append((None, [q.src(s_.value)]))
+    walk(stmts)
+    want_arms = [("is_pure_async_fn(fn)", ["fn(*args, **kwargs)"]), ("hasattr(fn, 'asynq')", ["fn.asynq(*args, **kwargs)"]),
+                 ("hasattr(fn, 'async')", ["getattr(fn, 'async')(*args, **kwargs)"]), (None, ["futures.ConstFuture(fn(*args, **kwargs))"])]
+    R.check(arms_ == want_arms, P + ".ASYNC-CALL", ac.qualname, R.site(ac),
+            "async_call dispatches pure / .asynq / .async / plain, in this order, each with the same (*args, **kwargs)",
+            "async_call's arms are %s" % arms_)
     # ---- CLASSIFY
     for cq in DECORATOR_CLASSES:
         cls = repo.cls(cq)
